@@ -57,7 +57,7 @@ def guess_col_info(values):
 
 
 class EngineProc(object):
-  def __init__(self, hashseed=0, contracts='', failpoints=False, timeout=60.0, log=None,
+  def __init__(self, hashseed=0, contracts='', failpoints=False, timeout=240.0, log=None,
                record=True, extra_env=None):
     env = dict(os.environ)
     env['PYTHONPATH'] = os.path.join(VERIF, 'shim') + os.pathsep + GRIST
